@@ -47,6 +47,7 @@ pub fn run(ctx: &Ctx) {
         v[l / 2] = 0x0a; v[l - 1] = 0x41; cc.push(("linefeed-middle".into(), v.clone())); cc.push(("crlf-pairs".into(), (0..len).map(|i| if i % 2 == 0 { 0x0d } else { 0x0a }).collect()));
         cc.push(("cyclic".into(), buffer(len)));
     }
+    for core in [b"hello".as_slice(), b"\x00\x01\xfe\xff", b"0123456789abcdef"] { for (n, m) in explore::affix_classes(core) { cc.push((format!("affix-{n}"), m)); } }
     ctx.sweep("content-classes", "runs of 00 / 0a / ff / 'A', one line feed first / last / in the middle of a long run, CR LF pairs, cyclic bytes, at lengths 1, 2, 1023..1025, 2047..2049, 4096, 8191..8193, 65535..65537, 200000: decode(encode(x)) = x", cc.len() as u64, |i| {
         let (class, data) = &cc[i as usize];
         let enc = Cmd::new(&["hex", "encode"]).stdin(data).run(Build::Release);
